@@ -37,7 +37,14 @@ Convert(i, op, m, pw) ==
           /\ calls' = Append(calls, [src |-> i, op |-> op, m |-> m, pw |-> pw, res |-> i])
      ELSE /\ objs' = Append(objs, [dom |-> Target(op), deriv |-> Append(objs[i].deriv, <<op, m, pw>>), src |-> i])
           /\ calls' = Append(calls, [src |-> i, op |-> op, m |-> m, pw |-> pw, res |-> Len(objs) + 1])
-Next == \E i \in 1..Len(objs), op \in Ops, m \in Methods, pw \in Prewarps : Convert(i, op, m, pw)
+\* a query (getlti): hands out the continuous-time equivalent of object i as a foreign (scipy) object - object i itself when it is
+\* continuous, its default d2c() otherwise; nothing is put on the heap and no object changes
+Query(i) ==
+  /\ Len(calls) < MaxCalls /\ i \in 1..Len(objs)
+  /\ objs' = objs
+  /\ calls' = Append(calls, [src |-> i, op |-> "lti", m |-> "zoh", pw |-> "none", res |-> i])
+Next == \/ \E i \in 1..Len(objs), op \in Ops, m \in Methods, pw \in Prewarps : Convert(i, op, m, pw)
+        \/ \E i \in 1..Len(objs) : Query(i)
 Spec == Init /\ [][Next]_vars
 
 \* no conversion touches an existing object
@@ -48,7 +55,8 @@ DerivationExtendsSource == \A i \in 2..Len(objs) :
                             /\ SubSeq(objs[i].deriv, 1, Len(objs[s].deriv)) = objs[s].deriv
 CallsConsistent == \A k \in 1..Len(calls) : LET c == calls[k] IN
    /\ c.res \in 1..Len(objs)
-   /\ (c.res = c.src <=> objs[c.src].dom = Target(c.op))
+   /\ (c.op \in Ops => (c.res = c.src <=> objs[c.src].dom = Target(c.op)))
+   /\ (c.op = "lti" => c.res = c.src)
    /\ (c.res # c.src => objs[c.res].src = c.src /\ objs[c.res].deriv[Len(objs[c.res].deriv)] = <<c.op, c.m, c.pw>>)
 \* a conversion alternates domains along every derivation
 Alternates == \A i \in 1..Len(objs) : \A k \in 1..Len(objs[i].deriv) : objs[i].deriv[k][1] = (IF k % 2 = 1 THEN "c2d" ELSE "d2c")
